@@ -80,6 +80,27 @@ def call_external(h: Any, name: str, args: List[AV], kwargs: Dict[str, AV], node
         return Term("ascii", (args[0],), ctx.new_id()) if not (isinstance(r, Term) and r.op == "repr") else Term("ascii", r.args, ctx.new_id())
     if short in ("int", "float"):
         return convert_number(h, short, args, node)
+    if short in ("decimal.Decimal", "Decimal") and len(args) == 1 and not kwargs and isinstance(args[0], (SymStr, Const)):
+        # A1: decimal.Decimal(str) accepts the numeric-string syntax (that of float(), for the shapes a token regex
+        # can leave) and raises decimal.InvalidOperation - an ArithmeticError, not a ValueError - for anything else,
+        # and also for a well-formed literal whose exponent lies outside the context's Emax (about 19 digits)
+        v = args[0]
+        if isinstance(v, Const):
+            import decimal as _dec
+
+            try:
+                _dec.Decimal(v.value)
+            except _dec.InvalidOperation:
+                raise h.raise_("decimal.InvalidOperation", "invalid literal for Decimal", node) from None
+            except TypeError:
+                raise h.raise_("TypeError", "Decimal() argument", node) from None
+            return Term("decimal", (v,), ctx.new_id())
+        ctx.atom_info[("decimal", "of-str", v.id)] = {"kind": "convert", "which": "decimal", "recv": v}
+        if ctx.choose(("decimal", "of-str", v.id), ["ok", "InvalidOperation"]) != "ok":
+            raise h.raise_("decimal.InvalidOperation", "invalid literal for Decimal", node)
+        if ctx.choose(("decimal-range", v.id), ["ok", "InvalidOperation"]) != "ok":
+            raise h.raise_("decimal.InvalidOperation", "exponent outside the range of the decimal context", node)
+        return Term("decimal", (v,), ctx.new_id())
     if short in ("list", "tuple"):
         if not args:
             return i.new_list([]) if short == "list" else PyTuple(())
@@ -498,6 +519,9 @@ def convert_number(h: Any, which: str, args: List[AV], node: Any) -> AV:
         if key not in h.conversions:
             h.conversions[key] = h.i.new_int(f"int({v.label})") if which == "int" else Term("float", (v,), h.ctx.new_id())
         return h.conversions[key]
+    if isinstance(v, Term) and v.op == "decimal":
+        # int(Decimal) truncates; finite values never fail (a huge exponent only takes long)
+        return h.i.new_int(f"int({v!r})") if which == "int" else Term("float", (v,), h.ctx.new_id())
     if isinstance(v, Term) and v.op == "float":
         r = h.ctx.choose(("int-of-float", v.id), ["ok", "OverflowError", "ValueError"])
         if r != "ok":
